@@ -141,6 +141,49 @@ Proof.
   apply enum_all_count_relabel; assumption.
 Qed.
 
+(** ** comp <= all whenever the EXHAUSTIVE search is not capped — no premise about the component-aware search: under a cap it
+    returns its limit-free result or nothing *)
+Lemma comp_subset_all_any_cap (host : hostg) (pat : molg) :
+  gwf (host_c06 host) -> gwf (pat_c06 pat) ->
+  (C06_Model.lenN (enum_all host pat) <= thr_val)%N ->
+  forall m, In m (matches 1%N host pat) -> exists m', In m' (matches 0%N host pat) /\ Permutation m m'.
+Proof.
+  intros HwH HwP Hl m Hin.
+  destruct (all_or_nothing_comp host pat) as [E|E]; rewrite E in Hin; [destruct Hin|].
+  set (H := host_c06 host) in *. set (P := pat_c06 pat) in *.
+  pose proof (monos_on_oracle_ok H P HwH HwP) as Hor.
+  rewrite matches_monos_on. fold H P. change (cfg_of 0%N) with (C06_Model.Cfg 0 0 thr_val true false).
+  destruct (all_exact (C06_Model.monos_on H P) thr_val true H P (proj1 Hor) Hl) as (_ & Hcomplete & _).
+  pose proof (comp_unl_spec (C06_Model.monos_on H P) H P HwH HwP Hor true) as S. cbv zeta in S.
+  destruct ((0 <? length (C06_Model.comps P))%nat && (length (C06_Model.comps P) <? length (C06_Model.comps H))%nat && true)%bool.
+  - rewrite S in Hin. destruct Hin.
+  - destruct (length (C06_Model.comps H) <? length (C06_Model.comps P))%nat.
+    + apply Hcomplete. apply (proj1 S). exact Hin.
+    + apply Hcomplete. apply (proj1 S m Hin).
+Qed.
+
+Lemma bt_subset_all_any_cap (host : hostg) (pat : molg) :
+  gwf (host_c06 host) -> gwf (pat_c06 pat) ->
+  (C06_Model.lenN (enum_all host pat) <= thr_val)%N ->
+  forall m, In m (matches 2%N host pat) -> exists m', In m' (matches 0%N host pat) /\ Permutation m m'.
+Proof.
+  intros HwH HwP Hl m Hin.
+  destruct (all_or_nothing_bt host pat) as [E|[E|E]]; rewrite E in Hin; [destruct Hin| |].
+  - (* the limit-free component-aware result: as in [comp_subset_all_any_cap] *)
+    set (H := host_c06 host) in *. set (P := pat_c06 pat) in *.
+    pose proof (monos_on_oracle_ok H P HwH HwP) as Hor.
+    rewrite matches_monos_on. fold H P. change (cfg_of 0%N) with (C06_Model.Cfg 0 0 thr_val true false).
+    destruct (all_exact (C06_Model.monos_on H P) thr_val true H P (proj1 Hor) Hl) as (_ & Hcomplete & _).
+    pose proof (comp_unl_spec (C06_Model.monos_on H P) H P HwH HwP Hor true) as S. cbv zeta in S.
+    destruct ((0 <? length (C06_Model.comps P))%nat && (length (C06_Model.comps P) <? length (C06_Model.comps H))%nat && true)%bool.
+    + rewrite S in Hin. destruct Hin.
+    + destruct (length (C06_Model.comps H) <? length (C06_Model.comps P))%nat.
+      * apply Hcomplete. apply (proj1 S). exact Hin.
+      * apply Hcomplete. apply (proj1 S m Hin).
+  - exists m. split; [|apply Permutation_refl]. rewrite all_or_nothing_all.
+    apply N.ltb_ge in Hl. rewrite Hl. exact Hin.
+Qed.
+
 (** ** a capped exhaustive search gives no result at all (and the property [its_list] returns the empty list) *)
 Lemma capped_results (host : hostg) (p : prepared) :
   (thr_val < C06_Model.lenN (enum_all host (p_pat p)))%N ->
@@ -184,3 +227,14 @@ Example cap_examples :
   length (@matches (thr_of (Some 2%N)) 1%N cx_host (p_pat cx_p)) = 2%nat /\
   @matches (thr_of (Some 1%N)) 2%N cx_host (p_pat cx_p) = [].
 Proof. repeat split; vm_compute; reflexivity. Qed.
+
+(** non-vacuity of [comp_subset_all_any_cap] / [bt_subset_all_any_cap]: cap 4 = the number of embeddings; the premises hold,
+    2 component-aware = fallback matches, each among the 4 exhaustive ones *)
+Example subset_any_cap_example :
+  C06_Model.gwfb (host_c06 cx_host) = true /\ C06_Model.gwfb (pat_c06 (p_pat cx_p)) = true /\
+  (C06_Model.lenN (enum_all cx_host (p_pat cx_p)) <= @thr_val (thr_of (Some 4%N)))%N /\
+  length (@matches (thr_of (Some 4%N)) 1%N cx_host (p_pat cx_p)) = 2%nat /\
+  length (@matches (thr_of (Some 4%N)) 2%N cx_host (p_pat cx_p)) = 2%nat /\
+  forallb (fun m => existsb (fun m' => C11_Model.set_eqb m m') (@matches (thr_of (Some 4%N)) 0%N cx_host (p_pat cx_p)))
+          (@matches (thr_of (Some 4%N)) 1%N cx_host (p_pat cx_p)) = true.
+Proof. repeat split; vm_compute; try reflexivity. discriminate. Qed.
